@@ -227,8 +227,8 @@ def r2(ctx):
             # for a ten-byte input: no stream-sized allocation is accepted in the decoder
             found.append((fi, s))
     for (fi, s) in found:
-        ctx.violated("C14.R2", fi, s, "a stream-derived integer sizes an allocation",
-                     "a few hostile bytes could make the decoder allocate far more than the input size", witness=norm(s), line=s.lineno)
+        ctx.violated("C14.R2", fi, s, "a stream-derived integer sizes an allocation: a few hostile bytes could make the decoder allocate far more than the input size",
+                     witness=norm(s), line=s.lineno)
     if not found:
         ctx.holds("C14.R2", "%s:deserialize_value" % M, "no stream-sized allocation in %d decoder functions" % len(D))
     # positive control
